@@ -165,6 +165,50 @@ def job_equality(ctx, mode, fmt, reps, iv, vary, ranges=None):
                    sample_every=100)
 
 
+def job_text(ctx, mode, fmt, reps, iv, rep="cal", ranges=None):
+    """TimeRecurrenceParser.parse(str(r)) == r with the same points (string layer)"""
+    from symx.strs import SymStr
+    from .c08 import sym_point, case_point
+    from .c03 import install_weeks_summary
+    data, parsers = ctx.data, ctx.parsers
+    C.set_mode(data, mode)
+    install_range_summary(data, mode)
+    install_weeks_summary(data, mode)
+    kw = IV[iv]
+    RP = parsers.TimeRecurrenceParser(parsers.TimePointParser(), parsers.DurationParser())
+
+    def make(e):
+        return {"a": sym_point(e, data, rep, 0, False, "sym", "sym")}
+
+    def pre(i):
+        return C.m_valid_point(mode, i["a"], rep, False)
+
+    def body(i):
+        a = i["a"]
+        d = data.Duration(**kw)
+        r = build(data, fmt, reps, a, d, a + d if fmt == 1 else None)
+        s = data.TimeRecurrence.__str__(r)
+        r2 = RP.parse(s)
+        k = reps if reps is not None else 3
+        return r, s, r2, (r2 == r), take(r, k), take(r2, k)
+
+    def post(i, out):
+        if out[0] != "ok":
+            return [("str(r) parses back", False)]
+        r, s, r2, eq, p1, p2 = out[1]
+        obs = [("parse(str(r)) == r", bool(eq)), ("same number of points", len(p1) == len(p2))]
+        for x, y in zip(p1, p2):
+            obs.append(("same points", same_point_z3(x, y)))
+        return obs
+
+    def case_of(v, i):
+        return {"check": "text", "mode": mode, "fmt": fmt, "reps": reps, "iv": iv, "a": case_point(v, rep, 0, False, "sym", "sym")}
+
+    return sym_run("text[%s,fmt%d,R%s,%s,%s,%s]" % (mode, fmt, reps, iv, rep, ranges), make, pre, body, post, case_of, ranges=ranges,
+                   engine_opts={"fork_span": 2}, scenarios=lambda i: {"text round trip": True},
+                   bounds={"interval": iv, "repetitions": reps, "years": "0000..8999"}, sample_every=100)
+
+
 # ---------------------------------------------------------------------------
 def replay(case, M):
     data = M.data
@@ -173,6 +217,19 @@ def replay(case, M):
     try:
         kw = IV[case["iv"]]
         d = data.Duration(**kw)
+        if case["check"] == "text":
+            akw = dict(case["a"])
+            akw.pop("tod", None)
+            a = data.TimePoint(**akw)
+            r = build(data, case["fmt"], case["reps"], a, d, a + d if case["fmt"] == 1 else None)
+            P = M.parsers
+            try:
+                r2 = P.TimeRecurrenceParser(P.TimePointParser(), P.DurationParser()).parse(str(r))
+            except Exception as exc:
+                return True, "parse(%r) raised %s: %s" % (str(r), type(exc).__name__, exc)
+            k = case["reps"] or 3
+            bad = not (r2 == r) or [str(x) for x in take(r, k)] != [str(x) for x in take(r2, k)]
+            return bad, "parse(str(r)) for r = %s gives %s" % (r, r2)
         a = C.build_point(data, case["a"])
         fmt, reps = case["fmt"], case["reps"]
         r = build(data, fmt, reps, a, d, a + d if fmt == 1 else None)
@@ -247,6 +304,13 @@ def jobs(tier):
                         continue
                     for iv in ("PT36H", "P1D"):
                         J.append(("job_equality", dict(mode=mode, fmt=fmt, reps=reps, iv=iv, vary=vary, ranges=A[1])))
+        for fmt in (3, 4, 1):
+            for reps in (1, 3, None):
+                if fmt == 1 and reps == 1:
+                    continue
+                for iv in ("PT36H", "P1M") if fmt != 1 else ("PT36H",):
+                    J.append(("job_text", dict(mode=mode, fmt=fmt, reps=reps, iv=iv, rep="cal", ranges={"M": (1, 3), "y0": (0, 8)})))
+                    J.append(("job_text", dict(mode=mode, fmt=fmt, reps=reps, iv=iv, rep="ord", ranges={"DOY": (360, 366), "y0": (0, 8)})))
     return J
 
 
@@ -259,14 +323,16 @@ INFO = {
                    "single-point recurrences; intervals PT36H, P1D, P1M, P1Y2D) and a symbolic exact shift: same repetitions and "
                    "interval, anchor point(s) moved by exactly d (exact intervals: every point), (r + d) - d == r; recurrences "
                    "that differ in anchor, interval or repetitions are unequal; the same series spelt in another zone and other "
-                   "units is ==, has equal hash keys and the same instants.",
+                   "units is ==, has equal hash keys and the same instants; str(r) (a string with symbolic digits) parses back "
+                   "through the real TimeRecurrenceParser to a recurrence == r with the same points.",
     "bounds": {"quick": {"anchors": "ordinal days 364-366 (PT36H also 100-101), any year, offsets +-3:59, any whole-second time",
                          "shifts": "hours -50..50, days -40..40", "differences": "anchor / interval moved by 1..5000 s; repetitions +1",
                          "respelling": "anchor in another whole-hour zone (+-3), PT36H as P1DT12H, P1D as PT24H", "mode": "gregorian"},
                "thorough": {"modes": "all 4", "anchors": "both windows for every interval"}},
-    "outside": ["TimeRecurrenceParser.parse(str(r)) == r (needs the string layer; see DESIGN.md)", "more than 3 repetitions / points",
+    "outside": ["text round trip for week-date anchors and for anchors outside Jan-Mar / days 360-366", "more than 3 repetitions / points",
                 "min_point/max_point"],
     "assumptions": ["hash(): structural key of the tuple the real __hash__ builds"],
 }
-REQUIRED_SCENARIOS = {"all": ["shift fmt1", "shift fmt3", "shift fmt4", "single-point recurrence", "negative shift",
+NEEDS_STRING_VALIDATION = True
+REQUIRED_SCENARIOS = {"all": ["text round trip", "shift fmt1", "shift fmt3", "shift fmt4", "single-point recurrence", "negative shift",
                               "vary:anchor", "vary:interval", "vary:reps", "vary:respell"]}
